@@ -35,7 +35,7 @@ ASSUMPTIONS = [
     "libc's tz database is the authority for the offset in force at an instant",
 ]
 BUDGET = {"quick": (300, 4), "thorough": (200000, 16)}
-REQUIRED = ["now_dst/file_std", "now_std/file_dst", "now_dst/file_dst", "now_std/file_std", "size0", "fixed_offset", "iana", "big_file", "near_switch", "within_hour_after_switch", "now_in_repeated_hour", "flatten_other_zone"]
+REQUIRED = ["now_dst/file_std", "now_std/file_dst", "now_dst/file_dst", "now_std/file_std", "size0", "fixed_offset", "iana", "big_file", "near_switch", "within_hour_after_switch", "now_in_repeated_hour", "flatten_other_zone", "second_generation_other_zone"]
 
 IANA = ["Europe/Berlin", "America/New_York", "America/Los_Angeles", "Australia/Sydney", "Pacific/Auckland", "America/Sao_Paulo",
         "Asia/Kolkata", "Asia/Kathmandu", "Pacific/Kiritimati", "Etc/GMT+12", "Europe/London", "Africa/Cairo", "America/St_Johns",
@@ -98,7 +98,10 @@ def _scn(draw):
             files.append({"name": "fold %d first pass.mov" % idx, "size": 2, "mtime": 1000000000, "frac": 0, "near_now_days": None, "near_switch": {"year": y, "idx": idx, "delta": -k}})
             files.append({"name": "fold %d second pass.mov" % idx, "size": 2, "mtime": 1000000000, "frac": 0, "near_now_days": None, "near_switch": {"year": y, "idx": idx, "delta": 3600 - k}})
     return {"tz": draw(_tz()), "files": files, "formats": draw(gen.formats(2)), "sub": draw(st.booleans()),
-            "flatten_tz": draw(st.sampled_from([None, None, "UTC", "Europe/Berlin", "America/Los_Angeles", "Asia/Kolkata", "Australia/Sydney", "<-0330>3:30"]))}
+            "flatten_tz": draw(st.sampled_from([None, None, "UTC", "Europe/Berlin", "America/Los_Angeles", "Asia/Kolkata", "Australia/Sydney", "<-0330>3:30"])),
+            # a second generation right afterwards under another zone (its local time may read *earlier* than the first
+            # generation's, as after the end of daylight saving or on a machine in another zone)
+            "second_tz": draw(st.sampled_from([None, None, "<-02>2", "<+01>-1", "Pacific/Pago_Pago", "Pacific/Kiritimati", "America/St_Johns", "UTC"]))}
 
 
 def strategy(tier):
@@ -297,6 +300,25 @@ def run_case(scn, ctx):
                 r = recs.get("sub")
                 require(r is not None, "record", "no record for directory 'sub'", res)
                 check_date(r["lastmod"], "lastmodificationdate of directory sub", None, None, exact=float(mt["R/sub"]))
+            if scn.get("second_tz"):
+                os.environ["TZ"] = scn["second_tz"]
+                time.tzset()
+                cur = {"name": scn["second_tz"], "iana": "/" in scn["second_tz"]}
+                s0 = time.time()
+                res = w.create("R", scn["formats"])
+                s1 = time.time()
+                require(res.exc is None and res.exit_code == 0, "create", "second generation under %s: %s" % (scn["second_tz"], res.brief()), res)
+                d2 = w.read_history("R")[-1][2]
+                check_date(d2["creatorinfo"].get("creationdate"), "creationdate of generation 2", int(s0), s1)
+                for r2 in d2["records"]:
+                    for e in r2["entries"] if r2["kind"] == "file" else []:
+                        check_date(e["hashdate"], "hashdate of %r in generation 2" % r2["path"], s0 - 0.001, s1)
+                    if r2["kind"] == "file" and ("R/" + r2["path"]) in mt:
+                        check_date(r2["lastmod"], "lastmodificationdate of %r in generation 2" % r2["path"], None, None, exact=float(int(mt["R/" + r2["path"]] // 1)))
+                ctx.event("second_generation_other_zone")
+                os.environ["TZ"] = tz
+                time.tzset()
+                cur = {"name": tz, "iana": tzspec["kind"] == "iana"}
             # flatten the history under a different zone: the packing list's dates must still denote the same instants
             if scn.get("flatten_tz"):
                 os.environ["TZ"] = scn["flatten_tz"]
